@@ -166,6 +166,8 @@ Section WithValidator.
         | Some added => ok (l ++ added) (if nonempty added then [(I len, [], added)] else [])
         end
     | Imul n =>                                            (* l.288-313 *)
+        if negb (fits n) then raise OverflowError l        (* super().__imul__(value), both branches *)
+        else
         if n <? 1 then ok (imul l n) (if nonempty l then [(I 0, l, [])] else [])
         else let l' := imul l n in
              let added := skipn (length l) l' in
@@ -177,11 +179,14 @@ Section WithValidator.
         let nidx := if i <? 0 then Z.max (i + len) 0 else Z.min i len in
         match vld v with
         | None => raise TraitError l
-        | Some y => ok (insert l i y) [(I nidx, [], [y])]
+        | Some y => if fits i then ok (insert l i y) [(I nidx, [], [y])]
+                    else raise OverflowError l             (* l.410 super().insert(index, ...): index beyond a machine word *)
         end
     | Pop oi =>                                            (* l.410-435 *)
         let i := match oi with Some i => i | None => -1 end in
         let nidx := if i <? 0 then i + len else i in
+        if negb (fits i) then raise OverflowError l       (* l.436 super().pop(index) *)
+        else
         match pop l i with
         | Raise e => raise e l
         | Ok (item, l') => mkObs (Ok tt) l' [(I nidx, [item], [])] (Some item)
@@ -214,9 +219,9 @@ Section WithValidator.
   Definition tl_step (l : list Z) (o : op) : obs := tl_core l (deX o).
 
   (* ---------------- TraitListObject ---------------- *)
-  (* _validate_length, l.872-902; maxlen = None stands for "no upper bound" *)
+  (* _validate_length, l.872-902; maxlen = None stands for the default maxlen = sys.maxsize *)
   Definition len_ok (minlen : Z) (maxlen : option Z) (n : Z) : bool :=
-    (minlen <=? n) && match maxlen with Some m => n <=? m | None => true end.
+    (minlen <=? n) && match maxlen with Some m => n <=? m | None => n <=? 9223372036854775807 end.
 
   (* `key.step is None or key.step == 1`, l.703 *)
   Definition is_step1 (sl : slice) : bool := match snd sl with None => true | Some k => k =? 1 end.
